@@ -147,6 +147,15 @@ class _TreeVisitor(TagTemplateParserVisitor):
             raise TemplateSyntaxError(
                 message="missing closing argument list bracket"
             ).with_location(location_from_symbol(ctx.errorUnclosedArgumentList))
+        seen_names = set()
+        for argument in ctx.argument():
+            if argument.ARG_NAME():
+                arg_name_symbol = argument.ARG_NAME().getSymbol()
+                if arg_name_symbol.text in seen_names:
+                    raise TemplateSyntaxError(
+                        message=f"argument '{arg_name_symbol.text}' specified more than once"
+                    ).with_location(location_from_symbol(arg_name_symbol))
+                seen_names.add(arg_name_symbol.text)
         collected_arguments = super().visitArgumentList(ctx)
         args = [
             arg_val for arg_name, arg_val in collected_arguments if arg_name is None
